@@ -421,7 +421,7 @@ func (spt *Tracker) recoverWithPinInfo(ctx context.Context, pi *api.PinInfo) (*a
 	switch pi.Status {
 	case api.TrackerStatusPinError, api.TrackerStatusUnexpectedlyUnpinned:
 		logger.Infof("Restarting pin operation for %s", pi.Cid)
-		err = spt.enqueue(ctx, api.PinCid(pi.Cid), optracker.OperationPin)
+		err = spt.enqueue(ctx, spt.pinFromState(ctx, pi.Cid), optracker.OperationPin)
 	case api.TrackerStatusUnpinError:
 		logger.Infof("Restarting unpin operation for %s", pi.Cid)
 		err = spt.enqueue(ctx, api.PinCid(pi.Cid), optracker.OperationUnpin)
@@ -431,6 +431,23 @@ func (spt *Tracker) recoverWithPinInfo(ctx context.Context, pi *api.PinInfo) (*a
 	}
 
 	return spt.Status(ctx, pi.Cid), nil
+}
+
+// pinFromState returns the pin as recorded in the shared state so that a
+// recovered pin is re-issued with its recorded mode and options. When the
+// state cannot be read it falls back to a default pin for the Cid.
+func (spt *Tracker) pinFromState(ctx context.Context, c cid.Cid) *api.Pin {
+	st, err := spt.getState(ctx)
+	if err != nil {
+		logger.Warn(err)
+		return api.PinCid(c)
+	}
+	pin, err := st.Get(ctx, c)
+	if err != nil {
+		logger.Warn(err)
+		return api.PinCid(c)
+	}
+	return pin
 }
 
 func (spt *Tracker) ipfsStatusAll(ctx context.Context) (map[cid.Cid]*api.PinInfo, error) {
